@@ -29,7 +29,7 @@ from ..worlds import pipeline as P
 
 PROPERTY = "C08"
 LEVEL = "exploration"
-QUICK_N = 48
+QUICK_N = 40
 SCENARIO_TIMEOUT = 420
 PROBES = ["fresh_interpreter_ok", "schedules_compared", "permutations_compared", "protein_level", "sklearn_learner", "default_model",
           "order_sensitive_learner", "multi_file", "parquet", "subsampled", "subset_proteins_in_fasta",
